@@ -424,6 +424,10 @@ def execute(sc, ctx) -> None:
         if rw:
             (name, el), ws, rs = rw[0]
             raise mk("race-read-write", f"{len(rw)} element(s) written by one thread and read by another, e.g. {name}[{el}] written by {ws} read by {rs}")
+        multi = {name: sorted(ths) for name, ths in sim.array_reds.items() if len(ths) > 1}
+        if multi:
+            name, ths = sorted(multi.items())[0]
+            raise mk("array-reduction-across-threads", f"floating-point array {name!r} is the sum of private per-thread copies (threads {ths}): its elements are computed from several threads, grouped by the schedule")
         o_ref, o_sim = outputs(a_ref, outs, r_ref), outputs(a_sim, outs, r_sim)
         for i, (x, y) in enumerate(zip(o_ref, o_sim)):
             if not same(x, y):
